@@ -17,31 +17,38 @@ W == INSTANCE WsFrame WITH Dev <- {}, Mut <- {}, wire <- <<>>, sent <- 0, eof <-
 Rec == ndJsonDeserialize(IOEnv.TRACE)
 
 Fr(x, pl) == [fin |-> x.fin, rsv |-> x.rsv, op |-> x.op, mask |-> x.mask, key |-> x.key, len |-> x.len, payload |-> pl]
+\* `small`, and the second entry of a sample, are octets of the encoder's OUTPUT (the wire), so unmasking is judged
+\* relative to what travelled; `same` says whether the output's payload part equals the payload handed to the encoder.
 GoodFrame(r) ==
   LET f == Fr(r.f, r.small)
       hf == [f EXCEPT !.payload = <<>>]
   IN /\ r.hdr = W!Header(hf) /\ r.hdr = W!EncAlgo(hf)               \* exact header bytes, shortest length form
-     /\ r.plen = r.f.len /\ r.same                                  \* followed by the payload as given
-     /\ r.dr = "ok" /\ r.dused = Len(r.hdr) + r.f.len               \* decodes, consuming exactly the frame
-     /\ Fr(r.d, <<>>) = [W!Unmasked(hf) EXCEPT !.payload = <<>>]    \* same fields (key zero when unmasked)
+     /\ r.plen = r.f.len /\ (r.f.mask = 0 => r.same)                 \* followed by a payload of that length (as given, when unmasked)
+     /\ r.dr = "ok"                                                  \* decodes
+     /\ W!NormKey(Fr(r.d, <<>>)) = [W!Unmasked(hf) EXCEPT !.payload = <<>>]    \* same fields
      /\ r.dplen = r.f.len
      /\ \A i \in 1..Len(r.samples) :
           LET s == r.samples[i] IN
           s[3] = IF r.f.mask = 1 THEN s[2] ^^ r.f.key[(s[1] % 4) + 1] ELSE s[2]
-     /\ r.f.len <= 16 => /\ W!Decode(r.hdr \o r.small) = [r |-> "ok", f |-> Fr(r.d, r.dsmall), used |-> r.dused]
+     /\ r.f.len <= 16 => /\ W!Matches([r |-> "ok", f |-> Fr(r.d, r.dsmall), used |-> r.dused], W!Decode(r.hdr \o r.small))
                          /\ W!RoundTrip(f)
-GoodBytes(r) ==
-  LET got == [r |-> r.dr, f |-> IF r.dr = "ok" THEN Fr(r.d, r.dsmall) ELSE W!NoFrame, used |-> r.dused]
-  IN W!Matches(got, W!Decode(r.w))
+\* beyond the statement (reported as drift): the reader is left exactly after the frame; a masked frame's payload is laid out as given
+StrictFrame(r) == r.dused = Len(r.hdr) + r.f.len /\ r.same
+Got(r) == [r |-> r.dr, f |-> IF r.dr = "ok" THEN Fr(r.d, r.dsmall) ELSE W!NoFrame, used |-> r.dused]
+GoodBytes(r) == W!Matches(Got(r), W!Decode(r.w))
+StrictBytes(r) == W!ConsumesExactly(Got(r), W!Decode(r.w)) /\ W!SameErrorKind(Got(r), W!Decode(r.w))
 Good(r) == IF r.k = "frame" THEN GoodFrame(r) ELSE IF r.k = "bytes" THEN GoodBytes(r) ELSE FALSE
+Strict(r) == IF r.k = "frame" THEN StrictFrame(r) ELSE StrictBytes(r)
 
-VARIABLES l, bad
-Init == l = 1 /\ bad = <<>>
+VARIABLES l, bad, odd
+Init == l = 1 /\ bad = <<>> /\ odd = <<>>
 Next == /\ l <= Len(Rec)
         /\ l' = l + 1
         /\ bad' = IF Good(Rec[l]) \/ Len(bad) >= 20 THEN bad ELSE Append(bad, l)
-Spec == Init /\ [][Next]_<<l, bad>>
+        /\ odd' = IF ~Good(Rec[l]) \/ Strict(Rec[l]) \/ Len(odd) >= 20 THEN odd ELSE Append(odd, l)
+Spec == Init /\ [][Next]_<<l, bad, odd>>
 AllAgree == (l = Len(Rec) + 1) =>
-              \/ bad = <<>>
-              \/ PrintT(ToJson([rejected |-> [i \in 1..Len(bad) |-> Rec[bad[i]]]])) /\ FALSE
+              /\ (odd # <<>> => PrintT(ToJson([drift |-> [i \in 1..Len(odd) |-> Rec[odd[i]]]])))
+              /\ \/ bad = <<>>
+                 \/ PrintT(ToJson([rejected |-> [i \in 1..Len(bad) |-> Rec[bad[i]]]])) /\ FALSE
 =============================================================================
